@@ -18,6 +18,24 @@ import (
 // caught by repetition.
 const indexReps = 64
 
+// scaleReps keeps the work per case bounded for the large shapes: an index of
+// up to 48 strings (everything the small generators produce) is converted
+// reps times as before; beyond that the repetitions shrink in proportion,
+// never below 3 (a large path iterates many maps per call anyway).
+func scaleReps(reps, indexLen int) int {
+	if indexLen <= 48 {
+		return reps
+	}
+	r := reps * 48 / indexLen
+	if r < 3 {
+		r = 3
+	}
+	if r > reps {
+		r = reps
+	}
+	return r
+}
+
 // orderErr is a mismatch whose observed value may depend on the run (map
 // iteration order): full goes to the evidence, stable is what rapid sees, so
 // that it recognises the failure again and can shrink it.
@@ -135,6 +153,7 @@ func runIndex(sc *IndexScenario) (st pathStats, err error) {
 		if v >= buildClone {
 			reps = 4
 		}
+		reps = scaleReps(reps, len(want[1]))
 		for _, lead := range []bool{false, true} {
 			w := want[0]
 			if lead {
@@ -264,6 +283,7 @@ func runComplete(sc *CompleteScenario) (st pathStats, err error) {
 		if v >= buildClone {
 			reps = 2
 		}
+		reps = scaleReps(reps, len(preIdx)+len(pathIdx))
 		for r := 0; r < reps; r++ {
 			got, gerr := path.CompletePath(pre, p)
 			switch {
